@@ -4,7 +4,7 @@
    Wal/CrcTab.v, Wal/Pb.v; it is tied to the Go code by the differential run of ./check C16. *)
 Require Import Base.Bytes Wal.Crc32c Wal.CrcTab Wal.Pb Wal.WalModel Wal.SnapModel.
 Require Import Wal.FrameProofs Wal.CrcProofs Wal.PbProofs Wal.WalProofs Wal.WalRefuted Wal.SnapProofs.
-Require Import Wal.TornProofs Wal.RepairProofs Wal.ReadAllProofs Wal.RoundtripProofs.
+Require Import Wal.TornProofs Wal.RepairProofs Wal.ReadAllProofs Wal.RoundtripProofs Wal.SnapFlipProofs.
 Local Open Scope N_scope.
 
 (* ------------------------------------------------------------------ frames *)
@@ -268,6 +268,25 @@ Theorem C16_snap_fallback : forall dir, NoDup (map fst dir) ->
   end.
 Proof. exact snap_load_fallback. Qed.
 Print Assumptions C16_snap_fallback.
+
+(* what SaveSnap wrote, Read accepts (so a saved snapshot is `intact`) … *)
+Theorem C16_snap_roundtrip : forall b,
+  b <> [] -> blen b + 64 < two56 -> crc_update 0 b <> 0 -> raftsnap_check b = POk tt ->
+  snap_read (snap_file_of b) = SnOk b.
+Proof. exact snap_roundtrip. Qed.
+Print Assumptions C16_snap_roundtrip.
+
+(* … and a single changed byte inside the checksummed snapshot bytes makes Read fail: the
+   damaged file is not `intact`, Load renames it and falls back to the next one *)
+Theorem C16_snap_byte_flip : forall pre a v suf,
+  let b := pre ++ a :: suf in
+  let c := crc_update_tab 0 b in
+  a <> v -> blen b + 64 < two56 ->
+  set_byte (snap_data_off c (blen b) + blen pre) v (snap_file_of b)
+    = snapfile_marshal (mksnapfile c (Some (pre ++ v :: suf)))
+  /\ exists e, snap_read (set_byte (snap_data_off c (blen b) + blen pre) v (snap_file_of b)) = SnErr e.
+Proof. exact snap_byte_flip. Qed.
+Print Assumptions C16_snap_byte_flip.
 
 (* non-vacuity: a directory whose newest file is garbage and whose older file is intact *)
 Example C16_snap_fallback_ex : snap_load ex_dir = (Some (ex_old, ex_d0), [ex_new]).
